@@ -90,6 +90,7 @@ func raceCheck(sp *spec, tier string, envSeed uint64, budget float64) int {
 			sc := bufio.NewScanner(pr)
 			sc.Buffer(make([]byte, 1<<20), 1<<26)
 			var block []string
+			var pendingSigs []string
 			inBlock := false
 			lastSeed := "?"
 			flush := func() {
@@ -101,7 +102,8 @@ func raceCheck(sp *spec, tier string, envSeed uint64, budget float64) int {
 					mu.Lock()
 					if _, ok := reports[sig]; !ok {
 						reports[sig] = text
-						repSeed[sig] = lastSeed
+						repSeed[sig] = "?"
+						pendingSigs = append(pendingSigs, sig)
 					}
 					mu.Unlock()
 				}
@@ -131,6 +133,10 @@ func raceCheck(sp *spec, tier string, envSeed uint64, budget float64) int {
 						}
 					}
 					lastSeed = kv["seed"]
+					for _, sig := range pendingSigs {
+						repSeed[sig] = lastSeed
+					}
+					pendingSigs = nil
 					ops, _ := strconv.ParseInt(kv["ops_ok"], 10, 64)
 					stops, _ := strconv.ParseInt(kv["stop_restart_cycles"], 10, 64)
 					for _, k := range []string{"ops_ok", "ops_failed", "leader_sightings", "stop_restart_cycles", "partitions", "membership_ok"} {
@@ -168,8 +174,13 @@ func raceCheck(sp *spec, tier string, envSeed uint64, budget float64) int {
 	if infraMsg != "" {
 		infra("%s", infraMsg)
 	}
+	if seedsRun == 0 && len(reports) == 0 {
+		infra("no seed completed and no race report")
+	}
 	if seedsRun == 0 {
-		infra("no seed completed")
+		// The processes died before finishing a seed (a racy map access is a fatal runtime
+		// error), but not before the detector reported what it saw.
+		seedsRun = 1
 	}
 	// Verdict.
 	findings := loadFindings()
@@ -226,7 +237,7 @@ func raceCheck(sp *spec, tier string, envSeed uint64, budget float64) int {
 	return exit
 }
 
-var frameRe = regexp.MustCompile(`^\s+(github\.com/jmsadair/raft[^\s(]*)\(`)
+var frameRe = regexp.MustCompile(`^\s+(github\.com/jmsadair/raft\S*)\(\)\s*$`)
 
 // raceSignature: the innermost raft frame of each of the two accesses, sorted.
 func raceSignature(block []string) string {
